@@ -110,7 +110,7 @@ Proof. induction k as [|k IH]; intros [|x l]; try reflexivity. cbn [map firstn].
 
 Lemma sound_crash_caches fls db cs k : sound db cs -> sound db (crash_caches false fls db cs k).
 Proof.
-  intro H. unfold crash_caches, persists, final_saves. cbn [app]. rewrite firstn_map. now apply sound_final_saves.
+  intro H. unfold crash_caches, persists, final_saves. rewrite firstn_map. now apply sound_final_saves.
 Qed.
 
 Lemma sound_reader fls db cs fl : sound db cs -> reader_answer fls db cs fl = rows_of fl db.
